@@ -182,6 +182,9 @@ mod stargate;
 mod test_helpers;
 mod tests;
 mod transactions;
+#[cfg(feature = "verif")]
+#[doc(hidden)]
+pub mod verif_hooks;
 mod wasm;
 
 pub use crate::addresses::{
